@@ -15,13 +15,22 @@ static inline float verif_f32_from_bits(uint32_t b){ float d; memcpy(&d,&b,4); r
 static inline uint32_t verif_f32_to_bits(float d){ uint32_t b; memcpy(&b,&d,4); return b; }
 extern long verif_live_blocks;
 uint8_t* _Znwm(uint64_t n);
-#ifdef VERIF_CBMC
-static inline uint8_t* verif_new_post(uint8_t* p){ __CPROVER_assume(p != 0); verif_live_blocks++; return p; }
-#define VERIF_NEW(T, size) verif_new_post((uint8_t*)malloc(sizeof(T) * ((size) / sizeof(T))))
-#else
-#define VERIF_NEW(T, size) _Znwm(size)
-#endif
 typedef void* verif_ptr_t;
+#ifndef VERIF_NEW_CAPN
+#define VERIF_NEW_CAPN 40
+#endif
+#ifdef VERIF_CBMC
+/* typed operator new: when the element count is not a symex constant, case-split over 0..VERIF_NEW_CAPN elements so that every
+ * heap object has a CONCRETE size (symbolic-size objects make the array encoding explode); larger requests fail an assertion. */
+#define VERIF_DEF_NEW(T, tag) \
+static uint8_t* verif_new_##tag(uint64_t size) { uint64_t n = size / sizeof(T); uint8_t* p = 0; int done = 0; \
+  for (uint64_t k = 0; k <= VERIF_NEW_CAPN; k++) if (!done && n == k) { p = (uint8_t*)malloc(sizeof(T) * (k ? k : 1)); done = 1; } \
+  __CPROVER_assert(done, "ENCODING-BOUND: allocation larger than VERIF_NEW_CAPN elements"); __CPROVER_assume(done); \
+  __CPROVER_assume(p != 0); verif_live_blocks++; return p; }
+#else
+#define VERIF_DEF_NEW(T, tag) static uint8_t* verif_new_##tag(uint64_t size) { return _Znwm(size); }
+#endif
+
 #define VERIF_DEF_MEM(T, tag) \
 static void verif_memcpy_##tag(void* d, const void* s, uint64_t n) { T* _d=(T*)(d); const T* _s=(const T*)(s); uint64_t _k=n/sizeof(T); \
   for (uint64_t _i=0; _i<_k; _i++) _d[_i]=_s[_i]; \
@@ -32,7 +41,50 @@ static void verif_memmove_##tag(void* d, const void* s, uint64_t n) { T* _d=(T*)
 static void verif_memset_##tag(void* d, uint8_t c, uint64_t n) { T* _d=(T*)(d); uint64_t _k=n/sizeof(T); T _v; memset(&_v,c,sizeof(T)); \
   for (uint64_t _i=0; _i<_k; _i++) _d[_i]=_v; \
   for (uint64_t _j=_k*sizeof(T); _j<n; _j++) ((uint8_t*)_d)[_j]=c; }
+/* libc functions referenced from the IR (renamed by ll2c to avoid prototype clashes) */
+static inline uint64_t verif_libc_strlen(uint8_t* s){ return strlen((const char*)s); }
+static inline uint32_t verif_libc_memcmp(uint8_t* a, uint8_t* b, uint64_t n){ for (uint64_t i = 0; i < n; i++) if (a[i] != b[i]) return a[i] < b[i] ? (uint32_t)-1 : 1u; return 0; }
+static inline uint32_t verif_libc_bcmp(uint8_t* a, uint8_t* b, uint64_t n){ return verif_libc_memcmp(a, b, n); }
+static inline uint8_t* verif_libc_memchr(uint8_t* a, uint32_t c, uint64_t n){ for (uint64_t i = 0; i < n; i++) if (a[i] == (uint8_t)c) return a + i; return 0; }
+static inline uint32_t verif_libc_strcmp(uint8_t* a, uint8_t* b){ return (uint32_t)strcmp((const char*)a, (const char*)b); }
+static inline void verif_libc_abort(void){ abort(); }
+static inline void verif_libc_free(uint8_t* p){ free(p); }
 /* intrinsics */
+static inline double verif_llvm_fmuladd_f64(double a, double b, double c){ return a * b + c; }
+static inline float verif_llvm_fmuladd_f32(float a, float b, float c){ return a * b + c; }
+static inline double verif_llvm_round_f64(double x){ return round(x); }
+static inline double verif_llvm_trunc_f64(double x){ return trunc(x); }
+static inline double verif_llvm_rint_f64(double x){ return rint(x); }
+static inline double verif_llvm_nearbyint_f64(double x){ return nearbyint(x); }
+static inline double verif_llvm_copysign_f64(double x, double y){ return copysign(x, y); }
+static inline double verif_llvm_minnum_f64(double x, double y){ return fmin(x, y); }
+static inline double verif_llvm_maxnum_f64(double x, double y){ return fmax(x, y); }
+static inline double verif_llvm_pow_f64(double x, double y){ return pow(x, y); }
+static inline double verif_llvm_exp_f64(double x){ return exp(x); }
+static inline double verif_llvm_exp2_f64(double x){ return exp2(x); }
+static inline double verif_llvm_log_f64(double x){ return log(x); }
+static inline double verif_llvm_log2_f64(double x){ return log2(x); }
+static inline double verif_llvm_log10_f64(double x){ return log10(x); }
+static inline float verif_llvm_ceil_f32(float x){ return ceilf(x); }
+static inline float verif_llvm_sqrt_f32(float x){ return sqrtf(x); }
+static inline uint64_t verif_llvm_abs_i64(uint64_t x, uint8_t p){ return (int64_t)x < 0 ? (uint64_t)0 - x : x; }
+static inline uint32_t verif_llvm_abs_i32(uint32_t x, uint8_t p){ return (int32_t)x < 0 ? (uint32_t)0 - x : x; }
+static inline uint64_t verif_llvm_usub_sat_i64(uint64_t a, uint64_t b){ return a > b ? a - b : 0; }
+static inline uint32_t verif_llvm_usub_sat_i32(uint32_t a, uint32_t b){ return a > b ? a - b : 0; }
+static inline uint64_t verif_llvm_uadd_sat_i64(uint64_t a, uint64_t b){ uint64_t r = a + b; return r < a ? UINT64_MAX : r; }
+static inline uint16_t verif_llvm_bswap_i16(uint16_t x){ return (uint16_t)((x << 8) | (x >> 8)); }
+static inline uint16_t verif_llvm_umin_i16(uint16_t a, uint16_t b){ return a<b?a:b; }
+static inline uint16_t verif_llvm_umax_i16(uint16_t a, uint16_t b){ return a>b?a:b; }
+static inline uint8_t verif_llvm_smin_i8(uint8_t a, uint8_t b){ return (int8_t)a<(int8_t)b?a:b; }
+static inline uint8_t verif_llvm_smax_i8(uint8_t a, uint8_t b){ return (int8_t)a>(int8_t)b?a:b; }
+static inline uint16_t verif_llvm_smin_i16(uint16_t a, uint16_t b){ return (int16_t)a<(int16_t)b?a:b; }
+static inline uint16_t verif_llvm_smax_i16(uint16_t a, uint16_t b){ return (int16_t)a>(int16_t)b?a:b; }
+static inline uint8_t verif_llvm_ctpop_i8(uint8_t x){ return (uint8_t)__builtin_popcount(x); }
+static inline uint16_t verif_llvm_ctlz_i16(uint16_t x, uint8_t z){ if(x==0) return 16; return (uint16_t)(__builtin_clz(x) - 16); }
+static inline uint8_t verif_llvm_ctlz_i8(uint8_t x, uint8_t z){ if(x==0) return 8; return (uint8_t)(__builtin_clz(x) - 24); }
+static inline uint8_t verif_llvm_cttz_i8(uint8_t x, uint8_t z){ if(x==0) return 8; return (uint8_t)__builtin_ctz(x); }
+static inline uint16_t verif_llvm_cttz_i16(uint16_t x, uint8_t z){ if(x==0) return 16; return (uint16_t)__builtin_ctz(x); }
+static inline uint32_t verif_llvm_fshr_i32(uint32_t a, uint32_t b, uint32_t c){ c&=31; return c? (a<<(32-c))|(b>>c) : b; }
 static inline double verif_llvm_floor_f64(double x){ return floor(x); }
 static inline double verif_llvm_ceil_f64(double x){ return ceil(x); }
 static inline double verif_llvm_fabs_f64(double x){ return fabs(x); }
